@@ -53,6 +53,8 @@ import (
 type Target struct {
 	Dir      string   // working directory for go list (a directory inside the module that provides the packages)
 	Patterns []string // import paths or patterns
+	// Flags are extra flags for go list (e.g. -modfile=...).
+	Flags []string
 	// Root is the directory site strings are made relative to (defaults to the module root of
 	// the first package).
 	Root string
@@ -226,6 +228,7 @@ func instrumentTarget(cfg Config, tg Target, baseRepl map[string]string, filesDi
 	if cfg.BaseOverlay != "" {
 		args = append(args, "-overlay", cfg.BaseOverlay)
 	}
+	args = append(args, tg.Flags...)
 	args = append(args, tg.Patterns...)
 	pkgs, err := goList(cfg, tg.Dir, args...)
 	if err != nil {
@@ -308,8 +311,9 @@ func instrumentTarget(cfg Config, tg Target, baseRepl map[string]string, filesDi
 			return fmt.Errorf("type-check %s: %s", p.ImportPath, strings.Join(terrs, "; "))
 		}
 		rep.Packages = append(rep.Packages, p.ImportPath)
+		mutated := mutatedVars(files, info)
 		for i, af := range files {
-			rw := &rewriter{cfg: &cfg, fset: fset, info: info, pkg: tpkg, file: af, rep: rep, targetSet: targetSet}
+			rw := &rewriter{cfg: &cfg, fset: fset, info: info, pkg: tpkg, file: af, rep: rep, targetSet: targetSet, mutated: mutated}
 			rel, err := filepath.Rel(root, paths[i])
 			if err != nil || strings.HasPrefix(rel, "..") {
 				rel = filepath.Join(filepath.Base(p.Dir), filepath.Base(paths[i]))
@@ -365,6 +369,9 @@ type rewriter struct {
 	targetSet map[string]bool
 
 	captured map[*types.Var]bool
+	// mutated: variables of the package that are assigned, incremented, address-taken or
+	// otherwise modifiable after their declaration (see mutatedVars)
+	mutated map[*types.Var]bool
 	// per function context
 	fn        string     // enclosing function name for site strings
 	recv      *types.Var // pointer receiver of the enclosing method
@@ -535,6 +542,111 @@ func removeImport(f *ast.File, path string) {
 	f.Decls = decls
 }
 
+// mutatedVars returns the variables of a package that can change after their declaration:
+// targets of assignments (including op-assign, ++/--, range with '=', `:=` redeclaration),
+// variables whose address (or the address of a part of them) is taken explicitly, by a
+// pointer-receiver method call or by slicing an array, and named results (assigned by
+// `return`). A variable outside this set is initialised once, before any closure or goroutine
+// that can see it exists; its reads need neither a scheduling point nor a race check.
+func mutatedVars(files []*ast.File, info *types.Info) map[*types.Var]bool {
+	out := map[*types.Var]bool{}
+	var root func(e ast.Expr) *types.Var
+	root = func(e ast.Expr) *types.Var {
+		switch x := e.(type) {
+		case *ast.ParenExpr:
+			return root(x.X)
+		case *ast.Ident:
+			v, _ := info.Uses[x].(*types.Var)
+			if v != nil && !v.IsField() {
+				return v
+			}
+		case *ast.SelectorExpr:
+			if sel, ok := info.Selections[x]; ok && sel.Kind() == types.FieldVal {
+				if t := info.Types[x.X].Type; t != nil {
+					if _, isPtr := t.Underlying().(*types.Pointer); isPtr || sel.Indirect() {
+						return nil // memory behind a pointer, not the variable itself
+					}
+				}
+				return root(x.X)
+			}
+		case *ast.IndexExpr:
+			if t := info.Types[x.X].Type; t != nil {
+				if _, isArr := t.Underlying().(*types.Array); isArr {
+					return root(x.X)
+				}
+			}
+		}
+		return nil
+	}
+	mark := func(e ast.Expr) {
+		if v := root(e); v != nil {
+			out[v] = true
+		}
+	}
+	for _, f := range files {
+		ast.Inspect(f, func(n ast.Node) bool {
+			switch x := n.(type) {
+			case *ast.AssignStmt:
+				for _, l := range x.Lhs {
+					if x.Tok == token.DEFINE {
+						if id, ok := l.(*ast.Ident); ok && info.Defs[id] == nil {
+							mark(id)
+						}
+						continue
+					}
+					mark(l)
+				}
+			case *ast.IncDecStmt:
+				mark(x.X)
+			case *ast.RangeStmt:
+				if x.Tok == token.ASSIGN {
+					if x.Key != nil {
+						mark(x.Key)
+					}
+					if x.Value != nil {
+						mark(x.Value)
+					}
+				}
+			case *ast.UnaryExpr:
+				if x.Op == token.AND {
+					mark(x.X)
+				}
+			case *ast.SliceExpr:
+				if t := info.Types[x.X].Type; t != nil {
+					if _, isArr := t.Underlying().(*types.Array); isArr {
+						mark(x.X)
+					}
+				}
+			case *ast.SelectorExpr:
+				if sel, ok := info.Selections[x]; ok && sel.Kind() != types.FieldVal {
+					if fn, ok := sel.Obj().(*types.Func); ok {
+						if sig, ok := fn.Type().(*types.Signature); ok && sig.Recv() != nil {
+							_, ptrRecv := sig.Recv().Type().Underlying().(*types.Pointer)
+							if t := info.Types[x.X].Type; ptrRecv && t != nil {
+								if _, isPtr := t.Underlying().(*types.Pointer); !isPtr {
+									mark(x.X) // implicit &x
+								}
+							}
+						}
+					}
+				}
+			case *ast.FuncType:
+				if x.Results != nil {
+					for _, fld := range x.Results.List {
+						for _, id := range fld.Names {
+							if v, ok := info.Defs[id].(*types.Var); ok {
+								out[v] = true
+							}
+						}
+					}
+				}
+			}
+			return true
+		})
+	}
+	return out
+}
+
 // findCaptured marks every variable that is used inside a function literal but declared
 // outside of it (a free variable of a closure).
 func (rw *rewriter) findCaptured() {
@@ -638,22 +750,38 @@ func isPtr(t types.Type) bool {
 }
 
 // shared classifies the location denoted by e. cat == "" means: not a shared location.
-func (rw *rewriter) shared(e ast.Expr) (cat string) {
+func (rw *rewriter) shared(e ast.Expr) (cat string) { return rw.classify(e, true) }
+
+// classify is shared with the option to ignore the never-modified filter: memory REACHED
+// through a never-modified variable (the elements of a map held in such a variable, the
+// pointee of such a pointer) is as shared as ever; only the variable's own reads need no hook.
+func (rw *rewriter) classify(e ast.Expr, forHook bool) (cat string) {
 	switch e := e.(type) {
 	case *ast.ParenExpr:
-		return rw.shared(e.X)
+		return rw.classify(e.X, forHook)
 	case *ast.Ident:
 		v, ok := rw.info.Uses[e].(*types.Var)
 		if !ok || v.IsField() {
 			return ""
 		}
 		if v.Pkg() != nil && v.Parent() == v.Pkg().Scope() {
+			if forHook && v.Pkg() == rw.pkg && !v.Exported() && !rw.mutated[v] {
+				// an unexported package variable that nothing in its package modifies after
+				// its initialisation: reads cannot race and commute with everything
+				rw.skip("reads of never-modified unexported package variables (no hook needed)")
+				return ""
+			}
 			if v.Pkg() == rw.pkg || rw.targetSet[v.Pkg().Path()] {
 				return "pkgvar"
 			}
 			return ""
 		}
 		if rw.captured[v] {
+			if forHook && !rw.mutated[v] {
+				// captured but only ever initialised at its declaration (effectively final)
+				rw.skip("reads of never-modified captured variables (no hook needed)")
+				return ""
+			}
 			return "captured"
 		}
 		return ""
@@ -672,13 +800,13 @@ func (rw *rewriter) shared(e ast.Expr) (cat string) {
 		if isPtr(rw.typeOf(e.X)) || sel.Indirect() {
 			return rw.through(e.X)
 		}
-		return rw.shared(e.X)
+		return rw.classify(e.X, forHook)
 	case *ast.IndexExpr:
 		switch under(rw.typeOf(e.X)).(type) {
 		case *types.Slice, *types.Pointer, *types.Map:
 			return rw.through(e.X)
 		case *types.Array:
-			return rw.shared(e.X)
+			return rw.classify(e.X, forHook)
 		}
 		return ""
 	case *ast.StarExpr:
@@ -699,7 +827,7 @@ func (rw *rewriter) through(p ast.Expr) string {
 	if id, ok := p.(*ast.Ident); ok && rw.recv != nil && rw.info.Uses[id] == rw.recv {
 		return "recvfield"
 	}
-	if rw.shared(p) != "" {
+	if rw.classify(p, false) != "" {
 		return "elem"
 	}
 	if rw.cfg.Deep {
